@@ -1483,6 +1483,31 @@ void fill_map_apply_entry()
         check_grid<N>("fill/" + ns, "fill(" + sz + ")", g, s, [](P<N> const &p) { return cell{code<N>(p) ^ 0x555U, tag_fill}; });
       vf::add_evals(1);
     }
+    // fill assigns CELL BY CELL: a function that reads the grid it is filling sees the cells already assigned in this
+    // call (a running number: the cell before it in storage order, plus one), never a snapshot of the old contents
+    if (n > 0)
+    {
+      G64 h(dim, [](typename G64::pos const &) { return std::uint64_t{100000U}; });
+      std::uint64_t const *const first_cell = &*h.begin();
+      guarded("fill/" + ns, "fill(" + sz + ") with a function reading the grid", n, [&] {
+        fg::fill(h, [&h](typename G64::pos const &p) {
+          tick();
+          auto const off = fg::offset(p, h.size());
+          return off == 0 ? std::uint64_t{1} : *(h.begin() + static_cast<std::ptrdiff_t>(off - 1)) + 1U;
+        });
+      });
+      std::uint64_t k = 0;
+      bool good = true;
+      for (std::uint64_t const v : h)
+        good = good && v == ++k;
+      if (!good || k != n)
+        vf::violation("fill/" + ns + "/function-reading-the-grid", "mismatch",
+                      "fill(" + sz + "): a running number computed from the cell before (in storage order) is not 1.." + std::to_string(n));
+      if (&*h.begin() != first_cell)
+        VF_COUNT("observed/fill/cells-relocated");
+      VF_COUNT("fill/function-reading-the-grid");
+      vf::add_evals(1);
+    }
     auto const og1 = make_grid<N>(s, tag_a);
     if (!og1.has_value())
       continue;
